@@ -109,6 +109,17 @@ func (l *RandomLayout) PipeBreak() bool {
 	return b
 }
 
+func (l *RandomLayout) ContinuationCol(lo, hi int) int {
+	if hi <= lo {
+		return hi
+	}
+	k := rapid.IntRange(lo, hi).Draw(l.T, "continuationCol")
+	if k != hi {
+		l.Kinds["pipeline continuation left of its first token"]++
+	}
+	return k
+}
+
 func (l *RandomLayout) RecordOneLine() bool {
 	b := l.n(1, "recordOneLine") == 1
 	if !b {
